@@ -13,6 +13,9 @@
    Push (oci.go:132-148)     storage.Push (AlreadyExists: nothing else happens), graph.Index,
                              and for manifests tag by digest
    Tag (oci.go:246-280)      needs the blob; tags by digest and by name
+   Untag                     the node loses its last tag name: Store.Untag, or Tag moving the
+                             name to another descriptor (resolver.Tag overwrites); the by-digest
+                             entry stays
    delete (oci.go:206-230)   untag every reference of the descriptor, graph.Remove,
                              storage.Delete.  Store.Delete with AutoGC is a sequence of
                              these steps (referrers and danglings are queued).
@@ -38,7 +41,7 @@ Record ostore := mkO {
 Definition empty_store : ostore := mkO [] [] [] empty_graph.
 
 Inductive oop :=
-| PPush (n : node) | PTag (n : node) | PDelete (n : node)
+| PPush (n : node) | PTag (n : node) | PUntag (n : node) | PDelete (n : node)
 | PGC (kept : list node) | PReopen.
 
 Definition o_sok (isman : node -> bool) (s : ostore) : node -> bool :=
@@ -57,6 +60,8 @@ Definition ostep (fixed : bool) (content : node -> list node) (isman : node -> b
       if smem n (o_blobs s)
       then (mkO (o_blobs s) (sadd n (o_bydigest s)) (sadd n (o_tagged s)) (o_graph s), true)
       else (s, true)
+  | PUntag n =>
+      (mkO (o_blobs s) (o_bydigest s) (sdel n (o_tagged s)) (o_graph s), true)
   | PDelete n =>
       (mkO (sdel n (o_blobs s)) (sdel n (o_bydigest s)) (sdel n (o_tagged s))
            (fst (remove (o_graph s) n)), true)
